@@ -1,0 +1,74 @@
+//go:build verif
+
+// Machine-checked contracts for package wal (comment-only; see /verif/DESIGN.md).
+
+package wal
+
+//@ # the store key of an event is a function of its ID (fixed-width hex under the event prefix: formatting trusted)
+//@ func (HydroEvent) Key
+//@   trusted
+
+//@ # ---- replaying one event: decode, check, handle at most once, delete exactly when done or unnecessary ----
+//@ func (*Hydro) recover
+//@   requires h != nil && handler != nil
+//@   ensures[C16.decode-once]  called(EventHandler.Decode) == 1
+//@   ensures[C16.check-iff]    called(EventHandler.Check) == ((res(EventHandler.Decode, 1) == nil) ? 1 : 0)
+//@   ensures[C16.check-item]   called(EventHandler.Check) == 1 ==> arg(EventHandler.Check, 2) == res(EventHandler.Decode, 0) && before(EventHandler.Decode, EventHandler.Check)
+//@   # the handler runs at most once, and only for an event that decoded and that the check declared necessary
+//@   ensures[C16.handle-iff]   called(EventHandler.Handle) == ((res(EventHandler.Decode, 1) == nil && res(EventHandler.Check, 1) == nil && res(EventHandler.Check, 0)) ? 1 : 0)
+//@   ensures[C16.handle-item]  called(EventHandler.Handle) == 1 ==> arg(EventHandler.Handle, 2) == res(EventHandler.Decode, 0) && before(EventHandler.Check, EventHandler.Handle)
+//@   # the event is removed exactly when its handler succeeded or the check declared it unnecessary
+//@   ensures[C16.delete-iff]   called(KV.Delete) == ((res(EventHandler.Decode, 1) == nil && res(EventHandler.Check, 1) == nil
+//@                                   && (!res(EventHandler.Check, 0) || res(EventHandler.Handle, 0) == nil)) ? 1 : 0)
+//@   # ... and what is removed is this event's own key, after the handler ran
+//@   ensures[C16.delete-key]   called(KV.Delete) == 1 ==> arg(KV.Delete, 1) == res(HydroEvent.Key) && arg(HydroEvent.Key, 0).ID == event.ID
+//@                                   && (called(EventHandler.Handle) == 1 ==> before(EventHandler.Handle, KV.Delete))
+//@   # errors of decode, check and handle are reported; otherwise the result of the delete
+//@   ensures[C16.result]       result == ((res(EventHandler.Decode, 1) != nil) ? res(EventHandler.Decode, 1) : ((res(EventHandler.Check, 1) != nil) ? res(EventHandler.Check, 1)
+//@                                   : ((res(EventHandler.Check, 0) && res(EventHandler.Handle, 0) != nil) ? res(EventHandler.Handle, 0) : res(KV.Delete, 0))))
+
+//@ # ---- logging one event: the record is stored under the key of a freshly drawn sequence number; commit deletes that key ----
+//@ func (*Hydro) Log
+//@   requires h != nil
+//@   ensures[C16.log-seq]   result1 == nil ==> called(KV.NextSequence) == 1 && called(KV.Put) == 1 && before(KV.NextSequence, KV.Put)
+//@   ensures[C16.log-key]   result1 == nil ==> arg(KV.Put, 1) == res(HydroEvent.Key) && arg(HydroEvent.Key, 0).ID == res(KV.NextSequence, 0)
+//@   ensures[C16.log-fail]  result1 != nil ==> isnil(result0)
+
+//@ # assumed: handlers and the key-value store do not write the memory this package works on
+//@ func (EventHandler) Decode
+//@   ensures true
+//@ func (EventHandler) Check
+//@   ensures true
+//@ func (EventHandler) Handle
+//@   ensures true
+//@ func (EventHandler) Encode
+//@   ensures true
+//@ func (KV) Delete
+//@   ensures true
+//@ func (KV) Put
+//@   ensures true
+//@ func (KV) NextSequence
+//@   ensures true
+//@ func (KV) Scan
+//@   ensures true
+
+//@ # handler registry (lock-free map library): assumed to be a read
+//@ func (*Hydro) getEventHandler
+//@   trusted
+//@   ensures result1 ==> result0 != nil
+
+//@ # decoding a scanned entry (JSON + key parsing): assumed to have no effect on tracked memory
+//@ func (*Hydro) decodeEvent
+//@   trusted
+
+//@ # ---- recovery: the scanned events are replayed one by one in scan order, each with the handler of its own type ----
+//@ func (*Hydro) Recover
+//@   requires h != nil
+//@   assert[C16.replay-order] before call recover#1: arg3.ID == events[rangeindex].ID && arg3.Type == events[rangeindex].Type && arg3.Item == events[rangeindex].Item
+//@        && arg2 == res(Hydro.getEventHandler, 0) && arg(Hydro.getEventHandler, 1) == events[rangeindex].Type && arg0 == h
+//@   loop 1:
+//@     modifies nothing
+//@     invariant arr(events) == 0 || (fresh(events) && allocated(events))
+//@   loop 2:
+//@     modifies nothing
+//@     invariant arr(events) == 0 || (fresh(events) && allocated(events))
